@@ -566,6 +566,11 @@ func main() {
 			}
 		}
 	}
+	// R12: read-only accessors for oracles that cannot be phrased on the public API.
+	if err := os.WriteFile(filepath.Join(*dir, "zz_verifsim_export.go"), []byte(exportFile), 0644); err != nil {
+		problems = append(problems, "R12: "+err.Error())
+	}
+	stats["exportfile"]++
 	// R10: no finalizer-based assertions.
 	inv := filepath.Join(*dir, "internal/invariants/invariants.go")
 	if b, err := os.ReadFile(inv); err == nil {
